@@ -241,6 +241,10 @@ pub trait ProtoRead {
 
     fn read_bit_vec(&mut self) -> Result<BitVec, Error> {
         let bytes = self.read_bytes()?;
+        if bytes.len() < core::mem::size_of::<u64>() {
+            // the trailing bit length is missing
+            return Err(IoError::from(std::io::ErrorKind::UnexpectedEof).into());
+        }
         Ok(BitVec::from_vec_with_trailing_bit_len(bytes))
     }
 
